@@ -152,6 +152,10 @@ func (f *FnFault) Delegate(inner functions.FunctionCalculator) functions.Functio
 				}
 				panic(FailureText(f.Msg))
 			}
+			if f.Kind == "fn_both" {
+				// a sloppy delegate: an error together with a non-nil result
+				return variants.VariantFromInteger(-1), FailureError(f.Msg)
+			}
 			return nil, FailureError(f.Msg)
 		}
 		if inner != nil {
